@@ -269,7 +269,10 @@ func Main() {
 	if run.Thorough() {
 		chosen = infos
 	} else {
-		// ~60 faces, round-robin over the kinds, order inside a kind by seed.
+		// ~70 faces: the 4 faces with the most glyphs of every kind (the corpus
+		// is dominated by 100-glyph test fonts; the few real-world fonts are the
+		// ones that use the rare operators), then round-robin over the kinds in
+		// an order given by the seed.
 		byKind := map[string][]*faceInfo{}
 		for _, fi := range infos {
 			// the quick tier leaves the very large faces to the thorough tier
@@ -278,16 +281,28 @@ func Main() {
 			}
 			byKind[fi.kind] = append(byKind[fi.kind], fi)
 		}
+		taken := map[*faceInfo]bool{}
+		for _, k := range kindOrder {
+			l := append([]*faceInfo(nil), byKind[k]...)
+			sort.SliceStable(l, func(i, j int) bool { return l[i].nGlyph > l[j].nGlyph })
+			for i := 0; i < 4 && i < len(l); i++ {
+				chosen = append(chosen, l[i])
+				taken[l[i]] = true
+			}
+		}
 		for ki, k := range kindOrder {
 			gen.Shuffle(gen.New(run.Seed, "C10/faces/"+k, ki), byKind[k])
 		}
-		const want = 60
+		const want = 72
 		for round := 0; len(chosen) < want; round++ {
 			any := false
 			for _, k := range kindOrder {
-				if round < len(byKind[k]) && len(chosen) < want {
-					chosen = append(chosen, byKind[k][round])
+				if round < len(byKind[k]) {
 					any = true
+					if fi := byKind[k][round]; !taken[fi] && len(chosen) < want {
+						chosen = append(chosen, fi)
+						taken[fi] = true
+					}
 				}
 			}
 			if !any {
@@ -351,7 +366,7 @@ func (m *monitor) finish() {
 	run.Finish(vrun.Level{
 		Level: "exploration",
 		Rule: "exhaustive per face: every glyph id (advance, extents, outline, name) and every code point enumerated by any decoder (character map), for faces without variations and for each design-coordinate setting of variable faces " +
-			"(default, each axis min/max, all min/max, outside the range, avar knees and segment middles, random incl. SetVariations on axis subsets). quick = 60 faces round-robin by kind (faces over 12000 glyphs left to thorough), 2 random settings; thorough = whole corpus, 5 random settings. " +
+			"(default, each axis min/max, all min/max, outside the range, avar knees and segment middles, random incl. SetVariations on axis subsets). quick = 72 faces: the 4 largest of each kind plus a seed-driven round-robin by kind (faces over 12000 glyphs left to thorough), 2 random settings; thorough = whole corpus, 5 random settings. " +
 			"non-trivial = glyph with a non-empty outline or a non-zero advance, distinct by (face, gid, design coordinates), plus mapped runes distinct by (face, rune)",
 		Assumptions: []string{
 			"HarfBuzz 6.0.0, FreeType 2.12.1, x/image v0.23.0 are independent decoders of unmodified corpus bytes; raw.go reads head/hmtx/vmtx/glyf headers/fvar/avar directly",
@@ -359,14 +374,28 @@ func (m *monitor) finish() {
 			"glyph 0 and 'not mapped' are the same character-map answer",
 			"vertical advances are compared only where a vmtx table exists",
 		},
-		Floor: 5000,
+		Floor: 20000,
 	})
 }
 
 // skewClasses documents the reference limitations that are counted as
 // inconclusive instead of being judged (filled in from what was measured on
 // the unchanged tree; see the final report of the monitor's author).
-var skewClasses = map[string]string{}
+var skewClasses = map[string]string{
+	"extents: empty-glyph-box-placement-convention":                         "glyph without contours in every decoder: all agree the box is empty (width=height=0, checked); HarfBuzz/FreeType put the empty box at the origin, the library at (lsb,0). Placement of an empty box is a convention, not a decoded quantity; counted under classes, not judged.",
+	"extents: stored header box differs from the control box of the points": "static glyf glyph whose header xMin/yMin/xMax/yMax are not the control box of its points (raw header read by the harness agrees with the library and HarfBuzz; FreeType and x/image recompute from points).",
+	"extents: bitmap-strike":                                                "glyph without outline in a face with sbix/CBDT/EBDT strikes: metrics scaled from strike ppem to font units; HarfBuzz is the only other reader (and rounds): single reference, +-1.",
+	"hadvance/vadvance: USE_MY_METRICS composite":                           "FreeType gives such a composite the metrics of the flagged component; the font's own hmtx/HVAR entry (read raw by the harness) is what the library, HarfBuzz and x/image return.",
+	"hadvance: negative phantom-point advance":                              "gvar fonts without HVAR where phantom points cross: library and HarfBuzz clamp to 0, FreeType does not.",
+	"hadvance/vadvance: HVAR/VVAR evaluated from the raw table agrees":      "FreeType 2.12.1 returns another value (it falls back to gvar phantom points for some subset fonts); the harness's own Item Variation Store evaluation agrees with the library and HarfBuzz.",
+	"normcoords: beyond an axis end that equals the default":                "FreeType 2.12.1 normalizes any out-of-range design value to +-1 even when that end of the axis is the default (should be 0); FreeType is then at another point of the design space and is not used for that setting.",
+	"normcoords: exact negative half-way case":                              "pre-avar value exactly k-0.5 in 2.14: HarfBuzz 6.0.0 rounds half up (measured: -1.5 -> -1), the library and current upstream HarfBuzz round half away from zero; avar slope can turn the 1-unit difference into 2. FreeType's 16.16 value lies between.",
+	"cmap: entry points beyond maxp.numGlyphs":                              "FreeType validates glyph indices and answers 0; HarfBuzz, x/image and the library return the stored index.",
+	"cmap: symbol / Macintosh / several subtables":                          "the font offers several character maps with different content and the decoders prefer different ones (HarfBuzz and the library: symbol (3,0) first and U+F000 remapping; HarfBuzz 6.0.0 has no Macintosh-platform decoder).",
+	"outline/extents: glyf+cff":                                             "face carrying both 'glyf' and 'CFF ': FreeType chooses by sfnt version, HarfBuzz always glyf, the library CFF for outlines and glyf for extents. Judged by consensus like any other face.",
+	"ximage skipped":                                                        "x/image is not consulted for variable settings, CFF2, CFF glyphs with fractional operands (it rounds each operand), USE_MY_METRICS composites (left-side-bearing shift not modelled) and faces with both glyf and CFF.",
+	"vadvance static, glyphname, hextents":                                  "not among the quantities of the statement: a consensus against the library is counted as inconclusive 'OUTSIDE THE STATEMENT (observed only)' and never raised.",
+}
 
 func (m *monitor) replay() {
 	var w Witness
